@@ -1007,6 +1007,11 @@ def r15(text, ctx):
     return out, n
 
 
+@rule('R33', '`filetime::set_file_mtime(P, FileTime::from(T))` / `filetime::set_file_atime(P, FileTime::from(T))` -> `verif_set_file_mtime(P, T)` / `verif_set_file_atime(P, T)` (external_body wrappers: the filetime crate cannot be linked in single-file mode; the call is an assumed OS effect returning io::Result<()>)')
+def r33(text, ctx):
+    return re.subn(r'\bfiletime::set_file_(m|a)time\(\s*(.*?),\s*FileTime::from\(\s*([A-Za-z_][A-Za-z0-9_]*)\s*\)\s*\)', r'verif_set_file_\1time(\2, \3)', text)
+
+
 @rule('R2b', '`fn f(mut x: T, ..) { B }` -> `fn f(x: T, ..) { let mut x = x; B }` (desugaring of a mutable parameter binding)')
 def r2b(text, ctx):
     if '\x00' not in text:
